@@ -131,6 +131,46 @@ def run(ctx, rep):
                 rep.ok("C14.1", cons, "upper bound against the size and a lower bound against 0", loc)
             else:
                 rep.violation("C14.1", cons, f"`{ast.unparse(st.test)}` bounds `{key}` from above only: a negative value is accepted and silently addresses a different qubit (Python negative indexing / wrong arithmetic), e.g. `register r[2]; foo r[-1]`", loc, witness="register r[2]\nfoo r[-1]")
+    # a violation of EITHER bound must raise: the two tests are alternatives, never conjuncts; and a quantity
+    # bounded from below against 0 in a raising guard has its upper bound in a raising guard too
+    for f in ix.functions.values():
+        if f.module != REGMOD or isinstance(f.node, ast.Lambda):
+            continue
+        cfg = CFG(f.body)
+        fl = FuncFlow(ix, T, f)
+        lows, ups = [], []
+        for st, lbl in raising_guards(f, cfg):
+            if lbl is not True:
+                continue
+            for n in ast.walk(st.test):
+                if isinstance(n, ast.Compare) and len(n.ops) == 1:
+                    a, b, op = n.left, n.comparators[0], n.ops[0]
+                    if isinstance(op, ast.Lt) and isinstance(b, ast.Constant) and b.value == 0:
+                        lows.append((a, n, st))
+                    elif isinstance(op, (ast.Gt, ast.GtE)) and is_size_expr(b, fl) and not is_size_expr(a, fl):
+                        ups.append((a, n, st))
+        for a, n, st in lows:
+            key = ast.unparse(a)
+            cons = construct_of(f, f"bounds-alternatives:{key[:30]}")
+            loc = f"{f.path}:{st.lineno}"
+            mates = [(ua, un, ust) for ua, un, ust in ups if (root_names(ua, fl) & root_names(a, fl)) - {f.params[0] if f.params else ""}]
+            if not mates:
+                rep.violation("C14.1", cons, f"`{ast.unparse(n)}` rejects negative values of `{key}` but nothing rejects values at or beyond the size: `register r[2]; foo r[5]` passes this check", loc, witness="register r[2]\nfoo r[5]")
+                continue
+            conj = False
+            for ua, un, ust in mates:
+                if ust is st:
+                    for m in ast.walk(st.test):
+                        if isinstance(m, ast.BoolOp) and isinstance(m.op, ast.And) and any(x is n for v in m.values for x in ast.walk(v)) and any(x is un for v in m.values for x in ast.walk(v)):
+                            # both comparisons below the same `and` (in different operands)
+                            vn = [v for v in m.values if any(x is n for x in ast.walk(v))]
+                            vu = [v for v in m.values if any(x is un for x in ast.walk(v))]
+                            if vn and vu and vn[0] is not vu[0]:
+                                conj = True
+            if conj:
+                rep.violation("C14.1", cons, f"`{ast.unparse(st.test)[:90]}` raises only when the value is negative AND too large at once, which never happens: no out-of-range value is rejected", loc)
+            else:
+                rep.ok("C14.1", cons, "lower and upper tests are alternatives", loc)
     # strictness: an index is valid for 0 <= i < size, an exclusive end for stop <= size
     for f in ix.functions.values():
         if f.module != REGMOD or isinstance(f.node, ast.Lambda):
